@@ -329,6 +329,59 @@ func decoders16(f *ssa.Function) (sites []be16Site, vals []ssa.Value) {
 }
 
 func runC12(r *Report) {
+	// a half-close never closes: tryCloseWrite and every callback installed as the half-close of a
+	// tunnel end (4th argument of NewReadWriteCloserWithCloseWrite, stores into closeWriteFunc) call
+	// CloseWrite only. A fallback to Close() kills the reply direction of a request/response exchange
+	// on transports without half-close.
+	nHalf := 0
+	halfClose := func(g *ssa.Function, where string, pos token.Pos) {
+		if g == nil {
+			return
+		}
+		nHalf++
+		bad := token.NoPos
+		for _, h := range WithAnon(g) {
+			Instrs(h, func(in ssa.Instruction) {
+				ci, ok := in.(ssa.CallInstruction)
+				if !ok {
+					return
+				}
+				c := CalleeOf(ci)
+				if c.Name == "Close" && ci.Common().Signature().Params().Len() == 0 {
+					bad = in.Pos()
+				}
+			})
+		}
+		p := pos
+		if bad != token.NoPos {
+			p = bad
+		}
+		r.Ob("R-C12-1", p, bad == token.NoPos, "the half-close path ("+where+") only half-closes: it never calls Close() (the opposite direction must keep flowing)", where, "half-close-never-closes")
+	}
+	if tcw := r.P.Fn("internal/utils/iocopy", "tryCloseWrite"); tcw != nil {
+		halfClose(tcw, "tryCloseWrite", tcw.Pos())
+	}
+	for _, f := range r.P.Funcs {
+		Instrs(f, func(in ssa.Instruction) {
+			switch x := in.(type) {
+			case ssa.CallInstruction:
+				if CalleeOf(x).Is("iocopy:NewReadWriteCloserWithCloseWrite") && len(x.Common().Args) >= 4 {
+					if k, isC := x.Common().Args[3].(*ssa.Const); isC && k.IsNil() {
+						return
+					}
+					if f.Name() == "NewReadWriteCloser" {
+						return
+					}
+					halfClose(resolveClosure(x.Common().Args[3], f, 0), r.P.FuncName(f)+":closeWriteFunc", in.Pos())
+				}
+			case *ssa.Store:
+				if _, fld, _, ok := FieldOf(x.Addr); ok && fld == "closeWriteFunc" && f.Name() != "NewReadWriteCloserWithCloseWrite" {
+					halfClose(resolveClosure(x.Val, f, 0), r.P.FuncName(f)+":closeWriteFunc", in.Pos())
+				}
+			}
+		})
+	}
+	r.Note("R-C12-1: %d half-close path(s) examined (tryCloseWrite + installed closeWriteFunc callbacks)", nHalf)
 	// delegating Read/Write wrappers on the client data path are transparent (R-C12-1)
 	for _, pk := range []string{"internal/utils/iocopy", "internal/client/mapping"} {
 		for _, f := range r.P.FuncsIn(pk) {
@@ -372,6 +425,56 @@ func runC12(r *Report) {
 		}
 	}
 	r.Floor("R-C12-2", 2, "read loops of the UDP relay")
+	// progress of the batching reader: the tunnel read is skipped only while at least one complete
+	// record is certainly buffered. With `if buffered < K { read }` that means K >= 2 + the largest
+	// record the parser accepts (an incomplete record of that size must trigger a read, otherwise the
+	// loop spins without reading and without seeing EOF) and K <= len(buffer) (the read has room).
+	for _, rd := range readsInLoops(udp) {
+		if originSummary(Recv(rd)) != "freevar:tunnelConn" {
+			continue
+		}
+		g := rd.Parent()
+		var K int64 = -1
+		for _, ft := range Facts(rd.Block()) {
+			bo, ok := ft.Cond.(*ssa.BinOp)
+			if !ok {
+				continue
+			}
+			if k, isC := ConstInt(bo.Y); isC && ((bo.Op == token.LSS && ft.Pol) || (bo.Op == token.GEQ && !ft.Pol)) {
+				if _, isPhi := stripValue(bo.X).(*ssa.Phi); isPhi {
+					K = k
+				}
+			}
+		}
+		if K < 0 {
+			continue // unconditional read: always progresses
+		}
+		var maxRec int64 = -1
+		Instrs(g, func(in ssa.Instruction) {
+			bo, ok := in.(*ssa.BinOp)
+			if !ok || bo.Op != token.GTR || bo.Referrers() == nil {
+				return
+			}
+			k, isC := ConstInt(bo.Y)
+			if !isC || k < 255 || k > 1<<20 {
+				return
+			}
+			// the decoded record length compared with its maximum
+			if _, vals := decoders16(g); len(vals) > 0 {
+				for _, v := range vals {
+					if stripValue(bo.X) == stripValue(v) {
+						maxRec = k
+					}
+				}
+			}
+		})
+		_, bl := bufLen(bufArg(rd))
+		if sl, ok := bufArg(rd).(*ssa.Slice); ok {
+			_, bl = bufLen(sl.X)
+		}
+		ok := maxRec > 0 && K >= maxRec+2 && (bl < 0 || K <= bl)
+		r.Ob("R-C12-2", CallPos(rd), ok, fmt.Sprintf("the batching reader refills below %d buffered bytes; largest record accepted %d (+2 prefix); buffer %d: an incomplete record always leads to a read", K, maxRec, bl), r.P.FuncName(g), "refill-covers-largest-record")
+	}
 
 	// ---- R-C12-3 exit of the tunnel direction unblocks the UDP reader ---------
 	if tunnelReader == nil {
